@@ -6,7 +6,7 @@ import gro_common as gc
 import lib
 
 RULE = ("complete files written by GroFile from generated runs (1..12 records, all four velocities x declared-count "
-        "combinations, decimals 1..6 or default, three box shapes, random titles): every byte prefix; crash points of the "
+        "combinations, decimals 1..6 or default, three box shapes, random / default / empty titles): every byte prefix; crash points of the "
         "same kind of runs: the file after every proper prefix of the operation list (each writeline, before close, after the "
         "count back-fill, after the seek), in S additionally after every single write/seek call of the file object; "
         "shipped .gro files of gaddlemaps/data: every prefix of the files below 3 kB (thorough: below 12 kB), and line "
@@ -147,6 +147,11 @@ CORPUS_RUNS = [
     # keeps a half-written file from being read as "0 atoms + box line"
     ({"title": "numeric names", "natoms": None, "fmt": None, "box": ("default",)},
      [(1, "e5", "12", 1, 0.1, 0.2, 0.3), (2, "7", "8", 2, 0.4, 0.5, 0.6)]),
+    # empty title ('' and a bare newline): the file starts with a bare newline
+    ({"title": "", "natoms": None, "fmt": None, "box": ("vec", [2.0, 2.0, 2.0])},
+     [(1, "SOL", "OW", 1, 0.1, 0.2, 0.3), (1, "SOL", "HW1", 2, 0.4, 0.5, 0.6)]),
+    ({"title": "\n", "natoms": 2, "fmt": (9, 4), "box": ("default",)},
+     [(1, "SOL", "OW", 1, 0.1, 0.2, 0.3, -0.01, 0.02, 0.03), (1, "SOL", "HW1", 2, 0.4, 0.5, 0.6, 0.0, 0.0, 0.0)]),
 ]
 
 
